@@ -1052,7 +1052,18 @@ SPECS.append(dict(name="KL.get_keys_from_string", group="Keylog", file=KLF, func
                   params=[("key_str", "Str")], ret=f"List {KOBJ}", externals=[("re_match", "List Nat → Option Unit")],
                   locals={"keys": f"List {KOBJ}"}, narrow_not_none=True,
                   calls={"get_key_from_line": dict(lean="KL.get_key_from_line re_match", args=["Str"], ret=f"Option {KOBJ}", raises=True)}))
-
+# set_initial_decryptor: dev_initial_keys (group KeySched translates it on its own) and the QuicDecryptor constructor are externals;
+# `self.keys.update(keys)` is the model's `keysInitial := true`.
+QS_EXT.update({"dev_initial_keys": ("dev_initial_keys", f"Bytes → {QSV} → Bool → Option (List (List Nat × Bytes))"),
+               "mk_decryptor": ("mk_decryptor", f"List Bytes → TLX.Cipher.Alg → Bool → Except PyRt.Err {QDEC}")})
+qs_spec("set_initial_decryptor", [("dcid", "Bytes"), ("chacha20", "Bool")], ["dev_initial_keys", "mk_decryptor"],
+        places=QS_PLACES + [("self.quic_version", "version", QSV, "s"), ("self.can_decrypt", "canDecrypt", "Bool", "s")],
+        locals={"keys": "Option (Table Str; Bytes)"}, narrow_not_none=True,
+        consts={**PTYPE, "AESGCM": ("TLX.Cipher.Alg.aesgcm", "TLX.Cipher.Alg")},
+        stmt_updates={"self.keys.update(keys)": "keysInitial := true"},
+        calls={"dev_initial_keys": dict(lean="dev_initial_keys", args=["Bytes", QSV, "Bool"], ret="Option (Table Str; Bytes)"),
+               "QuicDecryptor": dict(lean="mk_decryptor", params=["keys", "cipher", "early"], args=["List Bytes", "TLX.Cipher.Alg", "Bool"],
+                                     ret=QDEC, raises=True)})
 THEOREMS = _uniq(theorem_of(s) for s in SPECS)
 
 
